@@ -39,6 +39,15 @@ func (h *stackHandler) ServeHTTP(w http.ResponseWriter, req *http.Request) {
 	}
 	h.invoked.Add(1)
 	sc := h.script
+	if boolOr(sc, "tryhijack", false) {
+		// a handler that would like to take the connection over but answers normally when it cannot
+		if hj, ok := w.(http.Hijacker); ok {
+			if conn, _, err := hj.Hijack(); err == nil {
+				conn.Close()
+				return
+			}
+		}
+	}
 	if boolOr(sc, "hijack", false) {
 		hj, ok := w.(http.Hijacker)
 		if !ok {
@@ -172,23 +181,62 @@ func runStack(sc Scenario, tr *Trace, seed int64) {
 	for _, st := range sc.Steps {
 		layers := list(st, "layers")
 		script := st["script"].(M)
-		// oracle: the bare handler on an identical server
+		// oracle: the bare handler on an identical server (or an identical in-memory recorder)
 		bareH := &stackHandler{script: script}
-		bareSrv := httptest.NewServer(bareH)
-		bare := doReq(bareSrv.URL, "12345")
-		bareSrv.Close()
 		h := &stackHandler{script: script}
 		top := buildStack(layers, h, time.Second)
-		srv := httptest.NewServer(top)
-		h.warm.Store(true)
-		doReq(srv.URL, "12345")
-		doReq(srv.URL, "12345")
-		h.warm.Store(false)
-		got := doReq(srv.URL, "12345")
-		srv.Close()
+		var bare, got respView
+		if strOr(st, "via", "server") == "recorder" {
+			direct := func(hh http.Handler) respView {
+				req := httptest.NewRequest(http.MethodPost, "http://front.example.com/probe/path?q=1", strings.NewReader("12345"))
+				req.Header.Set("X-Req", "1")
+				rec := httptest.NewRecorder()
+				v := respView{}
+				func() {
+					defer func() {
+						if p := recover(); p != nil {
+							v.err = fmt.Sprint(p)
+						}
+					}()
+					hh.ServeHTTP(rec, req)
+				}()
+				if v.err == "" {
+					v.status, v.hdr, v.body = rec.Code, rec.Header(), rec.Body.Bytes()
+				}
+				return v
+			}
+			bare = direct(bareH)
+			h.warm.Store(true)
+			direct(top)
+			direct(top)
+			h.warm.Store(false)
+			got = direct(top)
+		} else {
+			bareSrv := httptest.NewServer(bareH)
+			bare = doReq(bareSrv.URL, "12345")
+			bareSrv.Close()
+			srv := httptest.NewServer(top)
+			h.warm.Store(true)
+			doReq(srv.URL, "12345")
+			doReq(srv.URL, "12345")
+			h.warm.Store(false)
+			got = doReq(srv.URL, "12345")
+			srv.Close()
+		}
 		// header comparison: everything the bare handler's response has must be there unchanged; what is added must be documented
 		hdrsEq, extraOK := true, true
 		skip := map[string]bool{"Date": true, "Content-Length": true, "Transfer-Encoding": true, "Connection": true, "Content-Type": bare.hdr.Get("Content-Type") == ""}
+		if strOr(st, "via", "server") == "recorder" {
+			// the in-memory recorder sniffs a Content-Type only when the first Write comes before WriteHeader: an
+			// artefact of the recorder, not of the stack - compare the header only when the script sets it itself
+			scripted := false
+			for _, hn := range list(script, "hdrs") {
+				scripted = scripted || hn.(string) == "Content-Type"
+			}
+			if !scripted {
+				skip["Content-Type"] = true
+			}
+		}
 		for k, v := range bare.hdr {
 			if skip[k] {
 				continue
